@@ -62,6 +62,9 @@ type Pkg struct {
 	Exp    map[string]Tri
 	Defs   [2]map[string]int // kind -> name -> value token
 	Imp    [2]map[string]int // kind -> name -> package imported from (Go interface)
+	// history facts, used only to name the construct an operation is (never for a verdict)
+	EverExp  map[string]bool
+	EverUsed map[int]bool
 }
 
 // Cand is a definition a name may resolve to.
@@ -88,7 +91,7 @@ type World struct {
 func New(n, init int) *World {
 	w := &World{Origin: map[int]Origin{}}
 	for i := 0; i < n; i++ {
-		p := &Pkg{Exp: map[string]Tri{}}
+		p := &Pkg{Exp: map[string]Tri{}, EverExp: map[string]bool{}, EverUsed: map[int]bool{}}
 		for k := 0; k < 2; k++ {
 			p.Defs[k] = map[string]int{}
 			p.Imp[k] = map[string]int{}
@@ -125,6 +128,36 @@ func (w *World) inherits(q int) bool {
 			continue
 		}
 		if e := w.Resolve(q, n); 0 < len(e.Must) || 0 < len(e.May) {
+			return true
+		}
+	}
+	return false
+}
+
+// formerlyExported tells whether name was at some time exported by c or by a
+// package connected to c through use edges that existed at some time (in
+// either direction, transitively), c not being alone.
+func (w *World) formerlyExported(c int, name string) bool {
+	seen := map[int]bool{c: true}
+	todo := []int{c}
+	for 0 < len(todo) {
+		p := todo[0]
+		todo = todo[1:]
+		for q, pk := range w.Pkgs {
+			if seen[q] {
+				continue
+			}
+			if w.Pkgs[p].EverUsed[q] || pk.EverUsed[p] {
+				seen[q] = true
+				todo = append(todo, q)
+			}
+		}
+	}
+	if len(seen) < 2 {
+		return false
+	}
+	for q := range seen {
+		if w.Pkgs[q].EverExp[name] {
 			return true
 		}
 	}
@@ -348,6 +381,9 @@ func (w *World) Classify(op Op) (class string, ok bool) {
 		}
 		// conflict: the used package exports a defined name that the current
 		// package defines itself or already inherits
+		if w.inherits(op.P) {
+			return "use/transitive", true
+		}
 		cls := "use/new"
 		for _, name := range sortedKeys(w.Pkgs[op.P].Exp) {
 			if w.Pkgs[op.P].Exp[name] == No {
@@ -363,24 +399,33 @@ func (w *World) Classify(op Op) (class string, ok bool) {
 				cls = "use/conflict"
 			}
 		}
-		if w.inherits(op.P) {
-			cls = "use/transitive"
-		}
 		return cls, true
 	case "unuse":
 		if !w.Pkgs[op.P].Exists || op.P == c {
 			return "unuse/invalid", false
 		}
+		cls := "unuse/not-used"
 		if w.uses(c, op.P) {
-			return "unuse/used", true
+			cls = "unuse/used"
 		}
-		return "unuse/not-used", true
+		for _, q := range w.Pkgs[c].Uses {
+			if q != op.P && w.inherits(q) {
+				cls += "+transitive" // a package that stays used passes on names it only inherits
+				break
+			}
+		}
+		return cls, true
 	case "export", "unexport":
 		cls := "undefined"
 		if _, own := w.Own(c, op.N); own {
 			cls = "own"
 		} else if e := w.Resolve(c, op.N); 0 < len(e.Must) || 0 < len(e.May) {
 			cls = "inherited"
+		}
+		if op.K == "export" && cls == "inherited" {
+			// CL imports the inherited symbol and re-exports it; slip documents
+			// nothing; the property statement is silent: not judged
+			return "export/inherited", false
 		}
 		if op.K == "unexport" && cls == "own" && w.Pkgs[c].Exp[op.N] != No && w.uncovers(c, op.N) {
 			cls += "+uncovers"
@@ -393,6 +438,9 @@ func (w *World) Classify(op Op) (class string, ok bool) {
 		}
 		switch cls {
 		case "new":
+			if w.formerlyExported(c, op.N) {
+				cls += "+formerly-exported-name"
+			}
 			if w.Pkgs[c].Exp[op.N] != No {
 				cls += "+exported"
 			}
@@ -483,6 +531,7 @@ func (w *World) Apply(op Op, val, step int) {
 		if !w.uses(c, op.P) {
 			w.Pkgs[c].Uses = append(w.Pkgs[c].Uses, op.P)
 		}
+		w.Pkgs[c].EverUsed[op.P] = true
 	case "unuse":
 		us := w.Pkgs[c].Uses[:0:0]
 		for _, u := range w.Pkgs[c].Uses {
@@ -493,6 +542,7 @@ func (w *World) Apply(op Op, val, step int) {
 		w.Pkgs[c].Uses = us
 	case "export":
 		w.Pkgs[c].Exp[op.N] = Yes
+		w.Pkgs[c].EverExp[op.N] = true
 	case "unexport":
 		w.Pkgs[c].Exp[op.N] = No
 	case "setq", "defun":
@@ -521,8 +571,12 @@ func (w *World) Apply(op Op, val, step int) {
 		p := w.Pkgs[op.P]
 		p.Exists = true
 		p.Uses = append([]int{}, op.Use...)
+		for _, u := range op.Use {
+			p.EverUsed[u] = true
+		}
 		for _, n := range op.Exp {
 			p.Exp[n] = Yes
+			p.EverExp[n] = true
 		}
 	case "import":
 		w.Pkgs[c].Imp[KindOf(op.N)][op.N] = op.P
